@@ -18,18 +18,39 @@
    Conventions.  A Python set or dict is a list; its order stands for the iteration order (hash order of class objects =
    memory addresses).  `next(iter(s))` in Feature.get_compute_framework is the parameter `choice`.  A class is identified by
    `cid` (Python: the class object); `supers` are the proper ancestors among feature-group classes (`__mro__` without the
-   class itself), so issubclass(i, o) = (i is o) or o in supers(i).  A compute framework is a number: the classes that exist
-   in the process are `existing`, those whose is_available() is true are `available`; a number outside `existing` stands for
-   a name that resolves to no class.  Modelled faithfully, including what looks odd: a subclass only replaces its parent when
-   both have the SAME set of usable frameworks; an empty enabled-set in the collector means "everything enabled". *)
+   class itself), so issubclass(i, o) = (i is o) or o in supers(i).
+
+   Compute frameworks: IDENTITY and NAME are different things.  `fw` is a compute-framework CLASS OBJECT (a number = its
+   identity); `cname e x` is its class name (get_class_name() = __name__, numbered).  Names need NOT be unique among the
+   classes that exist: a class factory, a notebook cell run twice (the old class stays in __subclasses__()), a plug-in that
+   shadows a built-in name all give same-named "twins".  The classes that exist in the process are `existing`, those whose
+   is_available() is true are `available`.  Where the code compares frameworks it does so
+     BY NAME     - a `str` entry of the API argument compute_frameworks (`sub.get_class_name() in request`): AName n selects
+                   EVERY existing class named n;   Feature(compute_framework="N") / options["compute_framework"]
+                   (FeatureValidator.validate_and_resolve_compute_framework: the FIRST class named N in the iteration order
+                   of get_all_subclasses(ComputeFramework)): feature_fw_of_name;
+     BY IDENTITY - a class entry of the API argument (`sub in request`): AClass x selects exactly x;  feature.compute_frameworks
+                   (a set of class objects: `cf in available_compute_frameworks`, `get_compute_framework() in compute_frameworks`);
+                   the group's compute_framework_rule set (`cp_fg in compute_frameworks`); set == in filter_subclasses.
+   `ffw` of a request is the class object Feature.__init__ has put into feature.compute_frameworks (a number outside
+   `existing` stands for a name that resolved to no class; the real Feature(...) raises at once: EFwUnknown).
+   Modelled faithfully, including what looks odd: a subclass only replaces its parent when both have the SAME set of usable
+   frameworks; an empty enabled-set in the collector means "everything enabled"; a feature-level framework NAME carried by
+   several classes is resolved to whichever comes first in set iteration order (resolve_named). *)
 From Coq Require Import List Bool String Arith.
 Require MV.Model.LinkSel.
 Import ListNotations.
 Open Scope string_scope.
 Open Scope list_scope.
 
-Definition fw := nat.
+Definition fw := nat.                 (* a compute-framework class OBJECT (identity) *)
+Definition fwname := nat.             (* a class NAME (get_class_name()); several classes may carry one name *)
 Definition index := list string.
+
+(* one element of the API argument `compute_frameworks` (a list of str or a set of str | type) *)
+Inductive apient :=
+| AName (n : fwname)                  (* a string: selects every existing class with that name *)
+| AClass (x : fw).                    (* a class object: selects exactly that class *)
 
 Record fgclass := {
   cid : nat;                          (* the class object *)
@@ -41,14 +62,16 @@ Record fgclass := {
 
 Record env := {
   existing : list fw;                 (* get_all_subclasses(ComputeFramework) *)
-  available : list fw }.              (* {c in existing | c.is_available()} *)
+  available : list fw;                (* {c in existing | c.is_available()} *)
+  cname : fw -> fwname }.             (* c.get_class_name(); NOT injective in general *)
 
 Record request := {
-  api : list fw;                                (* compute_frameworks argument of run_all/prepare; [] = None/empty *)
+  api : list apient;                            (* compute_frameworks argument of run_all/prepare; [] = None/empty *)
   collector : option (list nat * list nat);     (* PluginCollector: (enabled, disabled); None = no collector *)
   fname : string;                               (* feature name *)
   fdom : option string;                         (* Feature(domain=...) or options["domain"] *)
-  ffw : option fw;                              (* Feature(compute_framework=...) or options["compute_framework"] *)
+  ffw : option fw;                              (* feature.compute_frameworks = {class} after Feature(compute_framework=...) /
+                                                   options["compute_framework"]: a class OBJECT *)
   links : option (list (index * index)) }.      (* (left_index, right_index) of every Link given to the API *)
 
 Inductive err :=
@@ -70,10 +93,18 @@ Definition set_eqb (a b : list nat) : bool := subset a b && subset b a.         
 Definition nonempty {A} (l : list A) : bool := match l with [] => false | _ => true end.
 
 (* ---------- SetupComputeFramework ---------- *)
+(* filter_user_set_in_available_sub_classes: `sub.get_class_name() in request or sub in request` for one element of the
+   request: a str equals the NAME of sub, a class object IS sub *)
+Definition entry_selects (e : env) (a : apient) (s : fw) : bool :=
+  match a with
+  | AName n => Nat.eqb (cname e s) n
+  | AClass x => Nat.eqb s x
+  end.
+Definition api_selects (e : env) (l : list apient) (s : fw) : bool := existsb (fun a => entry_selects e a s) l.
 Definition api_set (e : env) (rq : request) : list fw :=
   match api rq with
   | [] => existing e                                          (* `if user_compute_frameworks:` is false *)
-  | _ => filter (fun s => mem s (api rq)) (existing e)        (* filter_user_set_in_available_sub_classes *)
+  | _ => filter (api_selects e (api rq)) (existing e)         (* filter_user_set_in_available_sub_classes *)
   end.
 
 (* ---------- PluginCollector.applicable_feature_group_class / `if plugin_collector:` ---------- *)
@@ -151,6 +182,33 @@ Definition resolve (e : env) (u : list fgclass) (rq : request) : result :=
             | r => r
             end
   end.
+
+(* ---------- Feature(name, compute_framework="N") / options["compute_framework"] = "N" ----------
+   Feature._set_compute_framework -> FeatureValidator.validate_and_resolve_compute_framework:
+     for subclass in get_all_subclasses(ComputeFramework): if N == subclass.get_class_name(): return subclass
+   i.e. the FIRST class with that name in the iteration order of the set (list order of `existing`); raises when there is none.
+   The class found becomes feature.compute_frameworks = {class}; everything after that compares class objects. *)
+Definition feature_fw_of_name (e : env) (n : fwname) : option fw :=
+  find (fun s => Nat.eqb (cname e s) n) (existing e).
+Definition with_ffw (rq : request) (x : option fw) : request :=
+  {| api := api rq; collector := collector rq; fname := fname rq; fdom := fdom rq; ffw := x; links := links rq |}.
+(* the request as the USER writes it: the feature's framework is a name (fn), not a class *)
+Definition resolve_named (e : env) (u : list fgclass) (rq : request) (fn : option fwname) : result :=
+  match fn with
+  | None => resolve e u (with_ffw rq None)
+  | Some n => match feature_fw_of_name e n with
+              | None => Rejected EFwUnknown
+              | Some x => resolve e u (with_ffw rq (Some x))
+              end
+  end.
+
+(* ---------- for contrast only (NOT the implementation): the API list "normalised to names" - every class entry replaced by
+   its class name, then everything selected by name.  Used by one refutation example: a class entry then also admits every
+   same-named twin. ---------- *)
+Definition entry_name (e : env) (a : apient) : fwname := match a with AName n => n | AClass x => cname e x end.
+Definition names_only (e : env) (rq : request) : request :=
+  {| api := map (fun a => AName (entry_name e a)) (api rq); collector := collector rq; fname := fname rq; fdom := fdom rq;
+     ffw := ffw rq; links := links rq |}.
 
 (* the framework a step of this feature runs on: Feature.get_compute_framework = next(iter(feature.compute_frameworks)) *)
 Definition run_fw (choice : list fw -> fw) (rq : request) (gf : list fw) : fw := choice (feature_fws rq gf).
